@@ -404,7 +404,7 @@ def main(tier: str) -> int:
         nontrivial |= nt
         for names, cuts, hexs, msg in viol:
             kind = msg.split(" ")[0]
-            rep.add_violation(f"C02|stream|{'+'.join(names)}|{kind}", f"stream {names} cuts {cuts}: {msg}",
+            rep.add_violation(f"C02|stream|{'+'.join(str(x) for x in names)}|{kind}", f"stream {names} cuts {cuts}: {msg}",
                               {"world": "c02", "kind": "stream", "stream": hexs, "cuts": list(cuts)})
     lf = large_reads(rep)
     mf = cf = 0
